@@ -26,6 +26,31 @@ CHECKS['C05'] = dict(
 	note='Trusts: the shim hands out iterations one at a time, so pre-emption points are iteration boundaries only (races inside one native iteration body are out of reach without Cython); '
 	     'libgomp team creation/barrier are real; the two-signature function is the reference.')
 
+CLI_NOTE = ('Trusts: simulated pool and OpenMP dispenser stand-ins (fidelity self-test compares them with the real pool and libgomp); commands run in-process through '
+            'gambit.cli.cli.main(standalone_mode=False); task bodies atomic; extension modules as built from the generated C.')
+CHECKS['C08'] = dict(
+	category='exploration', design_ref='DESIGN.md 4.3',
+	technique='deterministic simulation of the real query command: seeded pool completion order, OpenMP hand-out, short reads, chunk/machine-size/left-over-thread knobs; per-row reference executions as oracle',
+	text='Seeded search over batches, orderings, input channels, formats, -c values, chunk sizes, completion orders of the parsing pool and OpenMP hand-outs of the real query command run in-process in generated worlds; '
+	     'every row is compared with the row the same genome produces alone and with an independent label model. Sampling, not proof.',
+	note=CLI_NOTE + ' The chunk size reaches the command through the module-level QueryParams name because the CLI exposes no option; a third of the commands use the public API instead.')
+CHECKS['C09'] = dict(
+	category='exploration', design_ref='DESIGN.md 4.4',
+	technique='deterministic simulation with held ambient configuration: three NumPy CPU-dispatch settings x OpenMP team size/hand-out x chunk size x list length on tie-rich databases; sort-model invariant checked on every result item',
+	text='Every result item of every simulated query execution is checked against the (distance, reference index) sort model, under three NumPy CPU-feature dispatch settings (run groups share one choice sequence), '
+	     'drawn thread counts, hand-outs, chunk sizes and list lengths, on generated databases where tied distances are routine; CSV/JSON agreement through the CLI in a tenth of the runs. No fault is injected (the statement names none). Sampling, not proof.',
+	note=CLI_NOTE + ' Dispatch settings are limited to what NPY_DISABLE_CPU_FEATURES can switch on this CPU.')
+CHECKS['C16'] = dict(
+	category='exploration', design_ref='DESIGN.md 4.5',
+	technique='deterministic simulation of the real dist command: seeded pool completion order for both sides, OpenMP hand-out, short reads; cell-by-cell oracle from single-file reference executions and a four-decimal rounding model',
+	text='Seeded search over the 3 x 5 ways of supplying queries and references, k/p options, -c, completion orders and hand-outs of the real dist command in generated worlds; header, row labels, row order and every cell text are checked, --square also against the twin command. Sampling, not proof.',
+	note=CLI_NOTE + ' Parameter mismatches are not generated (C14).')
+CHECKS['C17'] = dict(
+	category='exploration', design_ref='DESIGN.md 4.6',
+	technique='deterministic simulation of the real tree command: seeded pool completion order, OpenMP hand-out; independent Newick reader and tie-branching UPGMA reference model',
+	text='Seeded search over input channels, label sets with repeats, tied/zero distances, -c, completion orders and hand-outs of the real tree command; the printed tree must be binary, ultrametric, carry exactly the input labels and match some admissible average-linkage clustering of the expected distances. Sampling, not proof.',
+	note=CLI_NOTE + ' The clustering arithmetic is a pure function; simulation only decides leaf-to-genome attachment under completion orders.')
+
 NOT_APPLICABLE = {
 	'C01': 'pure function of (k, prefix, sequence bytes, container type, accumulator): no schedule, fault, clock or persistent state can change it; input generation against a second definition is property-based testing, not simulation',
 	'C02': 'pure function of two sorted arrays; nothing a simulator decides (order, fault, time) enters',
